@@ -1145,6 +1145,12 @@ def generated_sexp(en, decl):
     return ["generated", ["b", ["s", ["n", Q("_max")], ["e", Q(en["T"])], ["v", str(v)]]]]
 
 
+def check_infra(msg):
+    """a compile failure caused by the Go build cache being trimmed under the running build is an infrastructure error, not an observation"""
+    if "go-build" in msg and ("no such file or directory" in msg or "could not import" in msg):
+        raise core.InfraError("the Go build cache was modified while the case module was being compiled: " + msg[:300])
+
+
 def last_rc(runs):
     """exit status of a sequence of shoot runs over the same package: the first failure, else 0"""
     for r in runs:
